@@ -396,14 +396,33 @@ def genTopoSet : M SchemaSet := do
     for c in comps do
       let k ← below (shuffled.length + 1)
       shuffled := shuffled.take k ++ [c] ++ shuffled.drop k
-    let style ← below 3
-    let mut prefixes : List (Nat × String) := [(ns, if style == 0 then "tns" else if style == 1 then "p" ++ toString ns else "")]
+    -- own namespace: `tns`, `pK`, the default namespace, or `tns` with XML Schema itself as the default namespace
+    let style ← below 4
+    let mut prefixes : List (Nat × String) := [(ns, if style == 0 || style == 3 then "tns" else if style == 1 then "p" ++ toString ns else "")]
     for j in others do
       prefixes := prefixes ++ [(j, if (← chance 1 3) then "q" ++ toString j else "p" ++ toString j)]
     -- a silent import may come before or after the bound ones
     let imps := (edges.filter (·.1 == ns)).map (·.2)
     let imps ← if (← chance 1 2) then pure imps.reverse else pure imps
-    files := files ++ [{ fileName := "f" ++ toString ns ++ ".xsd", tns := ns, prefixes := prefixes, imports := imps, comps := shuffled }]
+    files := files ++ [{ fileName := "f" ++ toString ns ++ ".xsd", tns := ns, prefixes := prefixes, imports := imps, comps := shuffled,
+                         xsdDefault := style == 3 }]
+  -- a namespace spread over two files: a second file with the target namespace of file 0, imported next to it
+  if nNs ≥ 2 && (← chance 1 3) then
+    let k := files.length
+    let part2 : SchemaFile := {
+      fileName := "f0b.xsd", tns := 0, prefixes := [(0, "tns")], imports := [],
+      comps := [.complexType "Region" { content := some ({}, [.elem "rga" str {}, .elem "rgz" (.named 0 "Zone") { min := 0 }]) } none,
+                .simpleType "Zone" (.builtin "string") { minLength := some 1 } none] }
+    let mut files' : List SchemaFile := []
+    for (f, i) in files.zipIdx do
+      if edges.contains (i, 0) && (← chance 2 3) then
+        let imps ← if (← chance 1 2) then pure (f.imports ++ [k]) else pure (k :: f.imports)
+        let extra : List Component := if visible i 0 then
+            [.complexType "UsesRegion" { content := some ({}, [.elem ("ur" ++ letterOf i) (.named 0 "Region") {}]) } none]
+          else []
+        files' := files' ++ [{ f with imports := imps, comps := f.comps ++ extra }]
+      else files' := files' ++ [f]
+    files := files' ++ [part2]
   pure { uris := uris, files := files, start := nNs - 1 }
 
 def runTopo (seed : Nat) : SchemaSet :=
